@@ -5,8 +5,16 @@
   are regenerated from /repo's C++ on every run (`Alpaqa/Gen/C06.lean`).  The chain theorems hold
   for *every* carrier with *any* decidable order and any classification of "finite" — they are
   pure decision logic, so in particular they hold for IEEE doubles (NaN, ±inf included).
-  Loop-level facts (iteration count, which iterate ε is computed from) are in `Props/Loop.lean`
-  for the solver loop models.
+  Loop-level facts (iteration count, which iterate ε is computed from, what the no-progress counter is) are in
+  `Props/C06_<Solver>.lean` for the solver loop models.
+
+  Documented formulas: `docCrit` is an independent specification of all ten criteria (mathematical norms,
+  projection `Π_C`); `calcErrorStopCrit_eq_doc` proves the generated code equal to it for nine criteria;
+  for `Ipopt` the code computes `codedIpopt ≠ docIpopt` (open finding `C06:ipopt-box-multiplier-sign`).
+  Non-finite residuals: `crit_nonneg_or_nan` / `nonfinite_crit_never_converged` over `XR β` with IEEE
+  arithmetic (`Proofs/C06Spec`) — `ε = −inf` is unreachable for `γ` NaN-or-nonnegative; the tolerance must be
+  finite (`inf_tolerance_accepts_inf`).  `max_no_progress = 0`: `k % 0` is undefined in C++ (open finding
+  `C06:max-no-progress-zero-division`); the no-progress theorems carry `1 ≤ max_no_progress`.
 -/
 import Alpaqa.Proofs.VecLemmas
 import Alpaqa.Proofs.C06Spec
